@@ -7,11 +7,11 @@ open TV.Features TV.ObsTime
 
 variable {V α β : Type}
 
-/-- position and stamp of every observation object of the heap -/
-def geom (w : World V) : List (V × V × V × StampZ) := w.heap.map (fun ob => (ob.x, ob.y, ob.z, ob.t))
+/-- position and stamp (the seven calendar fields and `zone`) of every observation object of the heap -/
+def geom (w : World V) : List (V × V × V × StampZ × Int) := w.heap.map (fun ob => (ob.x, ob.y, ob.z, ob.t, ob.zone))
 
 /-- positions, stamps, reference lists of the tracks and the focus -/
-def frameOf (w : World V) : List (V × V × V × StampZ) × List (List Nat) × Nat := (geom w, w.trks.map (·.ids), w.cur)
+def frameOf (w : World V) : List (V × V × V × StampZ × Int) × List (List Nat) × Nat := (geom w, w.trks.map (·.ids), w.cur)
 
 /-- `m` leaves positions, stamps and reference lists alone, on every world and on every outcome -/
 def Keeps (m : M (World V) α) : Prop := ∀ w, frameOf (m w).2 = frameOf w
@@ -68,7 +68,7 @@ theorem keeps_mapL (f : α → M (World V) β) (h : ∀ a, Keeps (f a)) : ∀ l 
 
 /-! ### heap changes that touch `features` only -/
 
-def gOf (ob : WObs V) : V × V × V × StampZ := (ob.x, ob.y, ob.z, ob.t)
+def gOf (ob : WObs V) : V × V × V × StampZ × Int := (ob.x, ob.y, ob.z, ob.t, ob.zone)
 
 theorem map_modify_fix (h : List (WObs V)) (id : Nat) (f : WObs V → WObs V) (hf : ∀ ob, gOf (f ob) = gOf ob) :
     (h.modify id f).map gOf = h.map gOf := by
@@ -454,7 +454,7 @@ theorem keeps_integExprT (g : GOps V) : Keeps (integExprT g : M (World V) Unit) 
 stamps and not the operations that make new tracks) -/
 def WOp.onFeatures : WOp V → Bool
   | .absCurv _ | .speed _ | .speedAF _ | .dsAF _ | .integ _ | .integExpr _ | .diff _ | .length _ | .curvAbs _ | .read _ _
-  | .remove _ _ | .write _ _ _ | .sorted _ | .duration _ | .times _ => true
+  | .remove _ _ | .write _ _ _ | .sorted _ | .duration _ | .times _ | .speedMethod _ => true
   | _ => false
 
 /-- positions, stamps and reference lists after an operation on features are those before it -/
@@ -474,6 +474,8 @@ theorem stepW_frame (g : GOps V) (op : WOp V) (hop : op.onFeatures = true) (w : 
   · cases op with
     | absCurv k => exact key _ (keeps_computeAbsCurvT g) _
     | speed k => exact key _ (keeps_estimateSpeedT g) _
+    | speedMethod k => exact key _ (keeps_estimateSpeedT g) _
+    | setZone _ _ => cases hop
     | speedAF k => exact key _ (keeps_addAFfn _ _ (keeps_speedAlgT g) _) _
     | dsAF k => exact key _ (keeps_addAFfn _ _ (keeps_dsAlgT g) _) _
     | integ k => exact key _ (keeps_unaryVoid _ _ _ _ (by decide)) _
